@@ -161,6 +161,11 @@ def narrowing_items():
 
 
 def run(ctx):
+    # which implementation runs depends on the kinds of THIS call's arguments only: not on what ran before at the same place
+    C.seam_check(ctx["report"], ctx["rundir"], "C10",
+                 templates=[("%s / 2", ["0.5", "3", "1/2", "3!"]), ("%s / 2", ["3", "0.5"]), ("%s == 1", ['"a"', "1", "1.0", "{1}"]), ("%s + 1", ["1", "1/2", "0.5", "1 m", "#2020-01-01#", "[1,2]"]),
+                            ("abs(%s)", ["-1", "-1/2", "-0.5", "-1 m", "[-2,1]"]), ("%s * 2", ["3!", "1.5", "2 m", "[1,2]", "1/3"]), ("max(%s, 1)", ["2", "1/2", "0.5", "[0,3]"]),
+                            ("floor(%s)", ["7/2", "3.5", "3", "#2020-01-01T10:00#", "(7/2) m"]), ("%s < 2", ["1", "5/2", "1 m", "[0,1]", "Bernoulli(1/2)"])])
     C.expect_sessions(ctx["report"], ctx["rundir"], "C10", narrowing_items(), kind="narrowing")
     rep, tier, seed = ctx["report"], ctx["tier"], ctx["seed"]
     d = json.load(open(C.BUILD + "/dump.json"))
